@@ -32,8 +32,8 @@ func VerifC05Fee() {
 	vAssert(done == (alpha && bal >= per*n), "C05/put-succeeds-iff-alphabet-signed-and-the-owner-can-pay-every-node")
 	_, cnt := vRead("container", "count")
 	okGet, _ := vRead("container", "get", id)
+	vRequire(done, "container-created")
 	if done {
-		vCover("container-created")
 		vCoverIf(bal == per*n && per > 0, "balance-exactly-at-the-threshold")
 		vAssert(balanceOf(owner) == preOwner-per*n, "C05/owner-debited-exactly-fee-times-nodes")
 		if n > 1 {
